@@ -14,4 +14,13 @@ META = {
 
 
 def instances(tier):
-    return cstep.instances_for("C04", tier)
+    from symtdf.runner import Instance
+    from . import e2e
+
+    out = cstep.instances_for("C04", tier)
+    legs = [(2, True, ("events",), True), (3, True, ("events", "emg"), True), (2, False, ("emg", "events"), False), (3, True, ("emg",), False)]
+    if tier != "quick":
+        legs += [(4, True, ("emg", "events"), True), (14, True, ("events", "emg"), True)]
+    for N, op, kinds, rm in legs:
+        out.append(Instance(f"e2e.N{N}.{'opaque+' if op else ''}{'+'.join(kinds)}{'.remove_first' if rm else ''}", e2e.c04_case(N, op, kinds, rm), goals=["done"], cost=50))
+    return out
